@@ -18,7 +18,8 @@ RULE = ("case = 1-3 documents (sample sources, generated text, empty, no trailin
         "distinct = distinct digest of event log and output")
 ASSUMPTIONS = [
     "didOpen.text equals the file on disk (the server reads the disk at open)",
-    "characters restricted to the BMP so that UTF-16 and code-point offsets coincide",
+    "positions are UTF-16 code units (LSP default; fortls negotiates no other encoding); a fifth of "
+    "the cases contain characters outside the BMP, where units and code points differ",
     "edit ranges lie inside the current model document (the property's precondition)",
     "inserted text is split into lines on its own (editor semantics; a trailing CR of an insertion "
     "is never fused with a following LF of the document)",
@@ -36,7 +37,7 @@ def plan(tier):
     return {"cases": 9000, "wall_s": 140} if tier == "quick" else {"cases": 300000, "wall_s": 1700}
 
 
-def initial_text(rng, tag):
+def initial_text(rng, tag, astral=False):
     r = rng.random()
     if r < 0.35:
         rel, text = rng.choice(gen.corpus_sources())
@@ -65,6 +66,14 @@ def initial_text(rng, tag):
         text = text[:-1]
     if rng.random() < 0.1:
         text = text.replace("  ", "\t", rng.randint(1, 3))
+    if astral:
+        # characters outside the BMP (one code point, two UTF-16 units) in comments and strings
+        ls = text.split("\n")
+        for _ in range(rng.randint(1, 4)):
+            k = rng.randrange(len(ls))
+            a = rng.choice(gen.ASTRAL)
+            ls[k] = rng.choice([ls[k] + " ! " + a + " c", ls[k] + "  x = '" + a + a + "z'", "! " + a + " " + ls[k]])
+        text = "\n".join(ls)
     return text, suffix
 
 
@@ -72,11 +81,12 @@ def gen_sched(g):
     rng = base.rng_for(g)
     incremental = rng.random() < 0.85
     ndocs = rng.randint(1, 3)
+    astral = rng.random() < 0.2
     tree = {}
     docs = {}
     for j in range(ndocs):
         tag = gen.rand_ident(rng, 3) + str(j)
-        text, suffix = initial_text(rng, tag)
+        text, suffix = initial_text(rng, tag, astral)
         p = f"{ROOT}/{tag}{suffix}"
         tree[p] = text
         docs[p] = None
@@ -127,10 +137,13 @@ def gen_sched(g):
                 changes = []
                 for _c in range(nch):
                     ch = reuse(gen.rand_change(rng, docs[p], 0.12))
+                    if astral and rng.random() < 0.3:
+                        ch = dict(ch, text=ch["text"] + rng.choice(gen.ASTRAL))
+                    ch = model.to_wire(docs[p], ch)  # generated in code points, sent in UTF-16 units
                     docs[p] = model.apply_change(docs[p], ch)
                     changes.append(ch)
             else:
-                ch = gen.rand_change(rng, docs[p])
+                ch = model.to_wire(docs[p], gen.rand_change(rng, docs[p]))
                 new = model.apply_change(docs[p], ch)
                 docs[p] = new
                 changes = [{"text": eol_of[p].join(new)}]
